@@ -115,7 +115,16 @@ def op_strategy(depth=1, only_tr=False):
             (T("rotate", t[1], t[2]) if t[3] == "rotate" else
              T("scale", 2.0) if t[3] == "scale" else T("mirror", "yz")),
             {"op": "move", "pt": t[4] or {"x": 1.0}, "form": "kw"}]})
-    return hist.weighted((4, tr), (6, mv), (1, ctx), (1, macro))
+    # a frame saved outside a transform block, restored and modified inside it,
+    # restored again after the block: the block must not have touched the stack
+    macro2 = st.tuples(st.tuples(c, c, c), st.tuples(c, c, c), pt).map(
+        lambda t: {"op": "tmacro", "ops": [
+            T("translate", *t[0]), T("save_state"), T("scale", 2.0),
+            {"op": "tctx", "body": [T("restore_state"), T("translate", *t[1])],
+             "to_identity": False, "raise": False},
+            T("restore_state"),
+            {"op": "move", "pt": t[2] or {"x": 1.0}, "form": "kw"}]})
+    return hist.weighted((4, tr), (6, mv), (1, ctx), (1, hist.equally(macro, macro2)))
 
 
 class Runner:
